@@ -162,6 +162,18 @@ def extra_C04(tier, seed, log):
     return {"stress": [l for l in lines if "casorder" in l]}, viols
 
 
+def extra_C15(tier, seed, log):
+    import sched
+    cov, viols = sched.run_property("C15", log)
+    p = V.sh([V.HARNESS, "stress"], env=V.GOENV, timeout=300)
+    lines = [l for l in p.stdout.splitlines() if "-resume" in l]
+    cov["stress"] = lines
+    for l in lines:
+        if l.startswith(("violation", "error")):
+            viols.append({"kind": "stress", "signature": "C15/stress/" + l.split(" ")[1].rstrip(":"), "msg": l, "ops": []})
+    return cov, viols
+
+
 def extra_C10(tier, seed, log):
     import crash, sched
     cov, viols = crash.run(tier, seed, log)
@@ -175,7 +187,7 @@ def extra_C20(tier, seed, log):
     return shutdown.run(tier, seed, log)
 
 
-EXTRA = {"C04": extra_C04, "C20": extra_C20, "C10": extra_C10, "C14": extra_C14, "C03": extra_C03, "C13": extra_sched("C13"), "C08": extra_sched("C08"), "C09": extra_sched("C09"), "C15": extra_sched("C15"), "C16": extra_sched("C16"), "C18": extra_sched("C18")}
+EXTRA = {"C04": extra_C04, "C20": extra_C20, "C10": extra_C10, "C14": extra_C14, "C03": extra_C03, "C13": extra_sched("C13"), "C08": extra_sched("C08"), "C09": extra_sched("C09"), "C15": extra_C15, "C16": extra_sched("C16"), "C18": extra_sched("C18")}
 
 
 def load_lines(path):
